@@ -3,7 +3,7 @@ import Casket.Generated.Directives
 /-
 C12 — Each request gets exactly one well-formed response; panics are contained.
 
-Statements only; helper lemmas live in Casket/Proofs/Middleware.lean.  `serve c r i` is the
+Statements only; helper lemmas live in Casket/Proofs/Middleware.lean.  `serve c r n i` is the
 model of Server.ServeHTTP over the site's chain (log, gzip, header, errors, templates in directive
 order; limits, request_id, rewrite, status, mime, internal are the identity on requests that do
 not trigger them) around the innermost behaviour `i`, observed by a ResponseWriter that counts
@@ -26,9 +26,9 @@ open Casket.Mw Casket.MwSpec
 abbrev tplOn (c : Cfg) (r : Req) : Bool := c.templates && r.html
 
 /-- The whole judged predicate holds of the model for every stack, request and behaviour. -/
-theorem C12_good (c : Cfg) (r : Req) (i : Inner) (hok : Inner.ok i = true) :
-    good (tplOn c r) (effectiveErrors c) i (serve c r i) = true :=
-  inv_server _ _ _ _ (inv_chain c r i hok)
+theorem C12_good (c : Cfg) (r : Req) (n : Nat) (i : Inner) (hok : Inner.ok i = true) :
+    good (tplOn c r) (effectiveErrors c) i (serve c r n i) = true :=
+  inv_server _ _ _ _ (inv_chain c r n i hok)
 
 theorem statusOK_of_core (tpl : Bool) (m : Option ErrMode) (i : Inner) (r : Resp)
     (h : goodCore tpl m i r = true) : statusOK tpl m i r = true := by
@@ -59,11 +59,11 @@ theorem statusOK_congr (tpl : Bool) (m : Option ErrMode) (i : Inner) (r r' : Res
     (hc : r'.commits = r.commits) (hs : r'.status = r.status) : statusOK tpl m i r' = statusOK tpl m i r := by
   unfold statusOK; cases i <;> simp only [hc, hs]
 
-theorem C12_good_wire (c : Cfg) (r : Req) (i : Inner) (hok : Inner.ok i = true) :
-    goodWire r.head (tplOn c r) (effectiveErrors c) i (serveWire c r i) = true := by
-  have hg := C12_good c r i hok
+theorem C12_good_wire (c : Cfg) (r : Req) (n : Nat) (i : Inner) (hok : Inner.ok i = true) :
+    goodWire r.head (tplOn c r) (effectiveErrors c) i (serveWire c r n i) = true := by
+  have hg := C12_good c r n i hok
   unfold serveWire
-  generalize serve c r i = R at hg
+  generalize serve c r n i = R at hg
   unfold goodWire wire
   by_cases hb : bodiless r.head R.status = true
   · have hcore : goodCore (tplOn c r) (effectiveErrors c) i R = true := by
@@ -83,13 +83,13 @@ theorem C12_good_wire (c : Cfg) (r : Req) (i : Inner) (hok : Inner.ok i = true) 
     simp only [hb', Bool.false_eq_true, if_false]
     exact hg
 
-theorem C12_model_verdict_ok (c : Cfg) (r : Req) (i : Inner) (hok : Inner.ok i = true) :
-    verdict r.head (tplOn c r) (effectiveErrors c) i (serveWire c r i) = "ok" := by
-  unfold verdict; rw [C12_good_wire c r i hok]; rfl
+theorem C12_model_verdict_ok (c : Cfg) (r : Req) (n : Nat) (i : Inner) (hok : Inner.ok i = true) :
+    verdict r.head (tplOn c r) (effectiveErrors c) i (serveWire c r n i) = "ok" := by
+  unfold verdict; rw [C12_good_wire c r n i hok]; rfl
 
-theorem C12_core (c : Cfg) (r : Req) (i : Inner) (hok : Inner.ok i = true) :
-    goodCore (tplOn c r) (effectiveErrors c) i (serve c r i) = true := by
-  have := C12_good c r i hok
+theorem C12_core (c : Cfg) (r : Req) (n : Nat) (i : Inner) (hok : Inner.ok i = true) :
+    goodCore (tplOn c r) (effectiveErrors c) i (serve c r n i) = true := by
+  have := C12_good c r n i hok
   unfold good at this
   simp only [Bool.and_eq_true] at this
   exact this.1
@@ -97,18 +97,18 @@ theorem C12_core (c : Cfg) (r : Req) (i : Inner) (hok : Inner.ok i = true) :
 /-- Well-formed: whatever the stack and whatever the handler did — including setting a
 Content-Length for a body that `templates` then renders, refuses to parse or fails to execute —
 the Content-Length committed with the header describes exactly the body that is sent. -/
-theorem C12_content_length_consistent (c : Cfg) (r : Req) (i : Inner) (hok : Inner.ok i = true) :
-    clOK (serve c r i) = true := by
-  have := C12_good c r i hok
+theorem C12_content_length_consistent (c : Cfg) (r : Req) (n : Nat) (i : Inner) (hok : Inner.ok i = true) :
+    clOK (serve c r n i) = true := by
+  have := C12_good c r n i hok
   unfold good at this
   simp only [Bool.and_eq_true] at this
   exact this.2
 
 /-- The response header is committed at most once — for every behaviour except a panic after
 the handler started writing; exactly once whenever there is anything to say. -/
-theorem C12_commits_once (c : Cfg) (r : Req) (i : Inner) (hok : Inner.ok i = true)
-    (hna : ∀ s b, i ≠ .panicAfter s b) : (serve c r i).commits ≤ 1 := by
-  have h := C12_core c r i hok
+theorem C12_commits_once (c : Cfg) (r : Req) (n : Nat) (i : Inner) (hok : Inner.ok i = true)
+    (hna : ∀ s b, i ≠ .panicAfter s b) : (serve c r n i).commits ≤ 1 := by
+  have h := C12_core c r n i hok
   unfold goodCore at h
   cases i with
   | ret s e =>
@@ -122,14 +122,14 @@ theorem C12_commits_once (c : Cfg) (r : Req) (i : Inner) (hok : Inner.ok i = tru
 /-- A handler that reports an error status without writing: the client receives exactly that
 status, once, with one error body — the configured page if one is configured for the status,
 else the default text (or, under `errors visible`, the debug text when an error value came along). -/
-theorem C12_error_status_gets_error_body (c : Cfg) (r : Req) (s : Nat) (e : Bool) (hs : s ≥ 400) :
-    (serve c r (.ret s e)).commits = 1 ∧ (serve c r (.ret s e)).status = s ∧
-    ∃ ch, chunks (serve c r (.ret s e)) = [ch] ∧ errorBodyOK (effectiveErrors c) s e ch = true := by
-  have h := C12_core c r (.ret s e) (by simp [Inner.ok, hs])
+theorem C12_error_status_gets_error_body (c : Cfg) (r : Req) (n : Nat) (s : Nat) (e : Bool) (hs : s ≥ 400) :
+    (serve c r n (.ret s e)).commits = 1 ∧ (serve c r n (.ret s e)).status = s ∧
+    ∃ ch, chunks (serve c r n (.ret s e)) = [ch] ∧ errorBodyOK (effectiveErrors c) s e ch = true := by
+  have h := C12_core c r n (.ret s e) (by simp [Inner.ok, hs])
   unfold goodCore at h
   simp only [hs, if_true, Bool.and_eq_true, beq_iff_eq] at h
   refine ⟨h.1.1, h.1.2, ?_⟩
-  generalize chunks (serve c r (.ret s e)) = cs at h
+  generalize chunks (serve c r n (.ret s e)) = cs at h
   match cs, h with
   | [ch], h => exact ⟨ch, rfl, h.2⟩
 
@@ -144,11 +144,11 @@ extension, or the handler also returned an error value): the client receives its
 exactly its body, committed once, whatever wrappers surround it, however the body was output
 (Write, io.Copy, io.WriteString, with a trailing Flush) and with or without its own
 Content-Length (one chunk ⇒ coded as a whole or not at all). -/
-theorem C12_written_response_unaltered (c : Cfg) (r : Req) (s : Option Nat) (b : Bytes) (e : Bool)
+theorem C12_written_response_unaltered (c : Cfg) (r : Req) (n : Nat) (s : Option Nat) (b : Bytes) (e : Bool)
     (k : BodyKind) (cl : Bool) (hs : ∀ code, s = some code → code ≥ 100) (hn : (tplOn c r && !e) = false) :
-    (serve c r (.write s b e k cl)).commits = 1 ∧ (serve c r (.write s b e k cl)).status = statusOf s ∧
-    chunks (serve c r (.write s b e k cl)) = [.inner b] := by
-  have h := C12_core c r (.write s b e k cl) (write_ok s b e k cl hs)
+    (serve c r n (.write s b e k cl)).commits = 1 ∧ (serve c r n (.write s b e k cl)).status = statusOf s ∧
+    chunks (serve c r n (.write s b e k cl)) = [.inner b] := by
+  have h := C12_core c r n (.write s b e k cl) (write_ok s b e k cl hs)
   unfold goodCore writtenOK at h
   simp only [hn, Bool.false_eq_true, if_false, Bool.and_eq_true, beq_iff_eq] at h
   exact ⟨h.1, h.2.1, h.2.2⟩
@@ -156,19 +156,19 @@ theorem C12_written_response_unaltered (c : Cfg) (r : Req) (s : Option Nat) (b :
 /-- … and when `templates` renders it: a plain body arrives as it is, a template arrives
 rendered, both with the handler's status; a template that does not parse or that fails while it
 executes gives exactly one 500 error response with one proper error body. -/
-theorem C12_templates_outcomes (c : Cfg) (r : Req) (s : Option Nat) (b : Bytes) (k : BodyKind) (cl : Bool)
+theorem C12_templates_outcomes (c : Cfg) (r : Req) (n : Nat) (s : Option Nat) (b : Bytes) (k : BodyKind) (cl : Bool)
     (hs : ∀ code, s = some code → code ≥ 100) (ht : tplOn c r = true) :
-    (serve c r (.write s b false k cl)).commits = 1 ∧
+    (serve c r n (.write s b false k cl)).commits = 1 ∧
     match k with
-    | .plain => (serve c r (.write s b false k cl)).status = statusOf s ∧
-        chunks (serve c r (.write s b false k cl)) = [.inner b]
-    | .tplOK => (serve c r (.write s b false k cl)).status = statusOf s ∧
-        chunks (serve c r (.write s b false k cl)) = [.rendered b]
-    | .tplParse => (serve c r (.write s b false k cl)).status = 500 ∧
-        oneChunk (errorBodyOK (effectiveErrors c) 500 true) (chunks (serve c r (.write s b false k cl))) = true
-    | .tplExec => (serve c r (.write s b false k cl)).status = 500 ∧
-        oneChunk (errorBodyOK (effectiveErrors c) 500 true) (chunks (serve c r (.write s b false k cl))) = true := by
-  have h := C12_core c r (.write s b false k cl) (write_ok s b false k cl hs)
+    | .plain => (serve c r n (.write s b false k cl)).status = statusOf s ∧
+        chunks (serve c r n (.write s b false k cl)) = [.inner b]
+    | .tplOK => (serve c r n (.write s b false k cl)).status = statusOf s ∧
+        chunks (serve c r n (.write s b false k cl)) = [.rendered b]
+    | .tplParse => (serve c r n (.write s b false k cl)).status = 500 ∧
+        oneChunk (errorBodyOK (effectiveErrors c) 500 true) (chunks (serve c r n (.write s b false k cl))) = true
+    | .tplExec => (serve c r n (.write s b false k cl)).status = 500 ∧
+        oneChunk (errorBodyOK (effectiveErrors c) 500 true) (chunks (serve c r n (.write s b false k cl))) = true := by
+  have h := C12_core c r n (.write s b false k cl) (write_ok s b false k cl hs)
   unfold goodCore writtenOK at h
   simp only [ht, Bool.not_false, Bool.and_true, if_true, Bool.and_eq_true, beq_iff_eq] at h
   refine ⟨h.1, ?_⟩
@@ -176,14 +176,14 @@ theorem C12_templates_outcomes (c : Cfg) (r : Req) (s : Option Nat) (b : Bytes) 
 
 /-- A panic before anything was written is contained: the client receives 500, once, with an
 error body. -/
-theorem C12_panic_before_write_500 (c : Cfg) (r : Req) :
-    (serve c r .panicBefore).commits = 1 ∧ (serve c r .panicBefore).status = 500 ∧
-    ∃ ch, chunks (serve c r .panicBefore) = [ch] ∧ panicBodyOK (effectiveErrors c) ch = true := by
-  have h := C12_core c r .panicBefore rfl
+theorem C12_panic_before_write_500 (c : Cfg) (r : Req) (n : Nat) :
+    (serve c r n .panicBefore).commits = 1 ∧ (serve c r n .panicBefore).status = 500 ∧
+    ∃ ch, chunks (serve c r n .panicBefore) = [ch] ∧ panicBodyOK (effectiveErrors c) ch = true := by
+  have h := C12_core c r n .panicBefore rfl
   unfold goodCore at h
   simp only [Bool.and_eq_true, beq_iff_eq] at h
   refine ⟨h.1.1, h.1.2, ?_⟩
-  generalize chunks (serve c r .panicBefore) = cs at h
+  generalize chunks (serve c r n .panicBefore) = cs at h
   match cs, h with
   | [ch], h => exact ⟨ch, rfl, h.2⟩
 
@@ -191,17 +191,17 @@ theorem C12_panic_before_write_500 (c : Cfg) (r : Req) :
 (the panic never escapes Server.ServeHTTP in the model: `serve` is total), and either the
 handler's own status and bytes come first, or — when a buffering wrapper still held them — the
 client sees the panic-before-writing response. -/
-theorem C12_panic_after_write_contained (c : Cfg) (r : Req) (s : Option Nat) (b : Bytes)
+theorem C12_panic_after_write_contained (c : Cfg) (r : Req) (n : Nat) (s : Option Nat) (b : Bytes)
     (hs : ∀ code, s = some code → code ≥ 100) :
-    (serve c r (.panicAfter s b)).commits ≥ 1 ∧
-    (((serve c r (.panicAfter s b)).status = statusOf s ∧
-        firstChunkIs (.inner b) (chunks (serve c r (.panicAfter s b))) = true) ∨
-     ((serve c r (.panicAfter s b)).commits = 1 ∧ (serve c r (.panicAfter s b)).status = 500)) := by
+    (serve c r n (.panicAfter s b)).commits ≥ 1 ∧
+    (((serve c r n (.panicAfter s b)).status = statusOf s ∧
+        firstChunkIs (.inner b) (chunks (serve c r n (.panicAfter s b))) = true) ∨
+     ((serve c r n (.panicAfter s b)).commits = 1 ∧ (serve c r n (.panicAfter s b)).status = 500)) := by
   have hok : Inner.ok (.panicAfter s b) = true := by
     cases s with
     | none => rfl
     | some code => simp [Inner.ok, hs code rfl]
-  have h := C12_core c r (.panicAfter s b) hok
+  have h := C12_core c r n (.panicAfter s b) hok
   unfold goodCore at h
   simp only [Bool.or_eq_true, Bool.and_eq_true, beq_iff_eq, bne_iff_ne, ne_eq] at h
   rcases h with h | h
@@ -210,11 +210,11 @@ theorem C12_panic_after_write_contained (c : Cfg) (r : Req) (s : Option Nat) (b 
 
 /-- Nothing to say: a handler that neither wrote nor reported an error leaves at most one
 commit and an empty body (net/http then answers 200). -/
-theorem C12_nothing_invented (c : Cfg) (r : Req) (s : Nat) (hs : s < 400) (hv : s = 0 ∨ s ≥ 100) :
-    (serve c r (.ret s false)).commits ≤ 1 ∧ chunks (serve c r (.ret s false)) = [] := by
+theorem C12_nothing_invented (c : Cfg) (r : Req) (n : Nat) (s : Nat) (hs : s < 400) (hv : s = 0 ∨ s ≥ 100) :
+    (serve c r n (.ret s false)).commits ≤ 1 ∧ chunks (serve c r n (.ret s false)) = [] := by
   have hok : Inner.ok (.ret s false) = true := by
     rcases hv with hv | hv <;> simp [Inner.ok, hv]
-  have h := C12_core c r (.ret s false) hok
+  have h := C12_core c r n (.ret s false) hok
   unfold goodCore at h
   have hn : ¬ s ≥ 400 := by omega
   simp only [hn, if_false, Bool.and_eq_true, decide_eq_true_eq, List.isEmpty_iff] at h
@@ -225,26 +225,46 @@ writing, through any stack — the responses to the requests that follow on the 
 responses those requests would get on a fresh server: each is a function of its own request alone.
 (The server state of the model: the gzip writer pool, the templates buffer pool, the access log;
 the middleware chain is never written by a request.) -/
-theorem C12_panic_isolated (c : Cfg) (st : ServerState) (first : Req × Inner) (later : List (Req × Inner)) :
-    (serveAll c st (first :: later)).tail = later.map (fun q => serve c q.1 q.2) := by
+theorem C12_panic_isolated (c : Cfg) (st : ServerState) (first : Req × Nat × Inner)
+    (later : List (Req × Nat × Inner)) :
+    (serveAll c st (first :: later)).tail = later.map (fun q => serve c q.1 q.2.1 q.2.2) := by
   rw [serveAll_eq]; rfl
 
 /-- … and for the request itself: the state earlier requests left does not show in its response. -/
-theorem C12_response_independent_of_state (c : Cfg) (r : Req) (i : Inner) (st st' : ServerState) :
-    (serveSt true c r i st).1 = (serveSt true c r i st').1 := by
+theorem C12_response_independent_of_state (c : Cfg) (r : Req) (n : Nat) (i : Inner) (st st' : ServerState) :
+    (serveSt true c r n i st).1 = (serveSt true c r n i st').1 := by
   rw [serveSt_resp, serveSt_resp]
 
 /-- What a request leaves behind differs from what it found only in benign components: every
 scratch object it took is back in its pool — also when the handler panicked — (a new one was
 made if the pool was empty), holding bytes that the next user clears; the access log grew by at
 most one entry.  Nothing else exists in the state. -/
-theorem C12_state_after (c : Cfg) (r : Req) (i : Inner) (st : ServerState) :
-    let st' := (serveSt true c r i st).2
+theorem C12_state_after (c : Cfg) (r : Req) (n : Nat) (i : Inner) (st : ServerState) :
+    let st' := (serveSt true c r n i st).2
     (st'.tplPool.length = if c.templates then max 1 st.tplPool.length else st.tplPool.length) ∧
     (st.gzPool.length ≤ st'.gzPool.length ∧ st'.gzPool.length ≤ max 1 st.gzPool.length) ∧
     (st.logLines ≤ st'.logLines ∧ st'.logLines ≤ st.logLines + 1) := by
   simp only [serveSt]
-  exact ⟨putBack_length _ _ _, putBack_bounds _ _ _, logAfter_bounds _ _⟩
+  exact ⟨putBack_length _ _ _ _, putBack_bounds _ _ _ _, logAfter_bounds _ _⟩
+
+/-- Every pooled object (gzip writer, template buffer) is in its pool at most once and was really
+handed out before — so `sync.Pool` never gives one object to two requests that are in flight
+together —: an invariant of the server state, preserved by every request (also one that panics,
+also one that returns an error status after the compressing writer was taken).  Returning a
+writer to its pool twice would break exactly this. -/
+theorem C12_pool_objects_unique (c : Cfg) (reqs : List (Req × Nat × Inner)) (st : ServerState)
+    (h : poolsSound st) :
+    poolsSound (reqs.foldl (fun st q => (serveSt true c q.1 q.2.1 q.2.2 st).2) st) := by
+  induction reqs generalizing st with
+  | nil => exact h
+  | cons q qs ih => exact ih _ (poolsSound_step c q.1 q.2.1 q.2.2 st h)
+
+/-- Informational headers are not the response: the error-status clause (and every other one)
+holds after any number of them — in particular gzip, which lets them through, still answers an
+unhandled error status afterwards. -/
+theorem C12_error_after_informational (c : Cfg) (r : Req) (n : Nat) (s : Nat) (e : Bool) (hs : s ≥ 400) :
+    (serve c r n (.ret s e)).commits = 1 ∧ (serve c r n (.ret s e)).status = s :=
+  ⟨(C12_error_status_gets_error_body c r n s e hs).1, (C12_error_status_gets_error_body c r n s e hs).2.1⟩
 
 def isSubseq : List String → List String → Bool
   | [], _ => true
@@ -264,28 +284,43 @@ def full : Cfg := { log := true, gzip := true, header := true, errors := some .p
 
 /-- test: full stack, template request offering gzip, handler returns (404, err): one commit,
 404, the configured page, gzip-coded, no Content-Length -/
-example : serve full ⟨true, true, false⟩ (.ret 404 true) =
+example : serve full ⟨true, true, false⟩ 0 (.ret 404 true) =
     { commits := 1, status := 404, body := [(.custom 404, true)], cl := none, live := none } := by decide
 
 /-- test: F16 — templates around a handler that wrote 201 "hi" with Content-Length and returned (0, err) -/
-example : serve { full with gzip := false, errors := none } ⟨true, false, false⟩ (.write (some 201) [104, 105] true .plain true) =
+example : serve { full with gzip := false, errors := none } ⟨true, false, false⟩ 0 (.write (some 201) [104, 105] true .plain true) =
     { commits := 1, status := 201, body := [(.inner [104, 105], false)], cl := some (.inner [104, 105]),
       live := some (.inner [104, 105]) } := by decide
 
 /-- test: the seeded scenario — templates, no gzip, a body with its own Content-Length that parses
 but fails in Execute: a clean 500 with no Content-Length left behind -/
-example : serve { full with gzip := false, errors := none, log := false, header := false } ⟨true, false, false⟩
+example : serve { full with gzip := false, errors := none, log := false, header := false } ⟨true, false, false⟩ 0
       (.write (some 200) [1, 2, 3] false .tplExec true) =
     { commits := 1, status := 500, body := [(.errText 500, false)], cl := none, live := none } := by decide
 
 /-- test: a template that renders gets the length of the rendered text -/
-example : (serve { full with gzip := false } ⟨true, false, false⟩ (.write none [1, 2, 3] false .tplOK true)).cl =
+example : (serve { full with gzip := false } ⟨true, false, false⟩ 0 (.write none [1, 2, 3] false .tplOK true)).cl =
     some (.rendered [1, 2, 3]) := by decide
 
 /-- test: no `errors`, no `gzip`: a panic after writing reaches Server.ServeHTTP, whose fallback
 is a second commit attempt after the handler's own bytes (the tolerated exception) -/
-example : (serve { full with gzip := false, errors := none, templates := false, header := false } ⟨true, false, false⟩
+example : (serve { full with gzip := false, errors := none, templates := false, header := false } ⟨true, false, false⟩ 0
       (.panicAfter (some 200) [1])).commits = 2 := by decide
+
+/-- test: the seeded scenario C12-gzip-tracking-writer-1xx — a chain with gzip but without errors
+(assembled through the API, no Casketfile), two informational headers, then (404, nil): gzip must
+still write the error response -/
+example : serve { log := false, gzip := true, header := false, errors := none, templates := false, inject := false }
+      ⟨true, true, false⟩ 2 (.ret 404 false) =
+    { commits := 1, status := 404, body := [(.errText 404, false)], cl := none, live := none } := by decide
+
+/-- non-vacuity of `C12_pool_objects_unique`: the empty state is sound, and so is one with two
+distinct objects; a pool holding one object twice is not -/
+example : poolsSound { gzPool := [], tplPool := [], logLines := 0, nextId := 0 } ∧
+    poolsSound { gzPool := [⟨0, []⟩], tplPool := [⟨1, []⟩], logLines := 3, nextId := 2 } ∧
+    ¬ poolsSound { gzPool := [⟨0, []⟩, ⟨0, []⟩], tplPool := [], logLines := 0, nextId := 1 } := by
+  refine ⟨⟨by simp, by simp⟩, ⟨by simp, by intro p hp; simp at hp; rcases hp with rfl | rfl <;> simp⟩, ?_⟩
+  intro h; have := h.1; simp at this
 
 /-- non-vacuity: the contract hypothesis `Inner.ok` admits every kind of behaviour, and excludes
 exactly the contract violations named in docs/C12.md -/
@@ -301,12 +336,12 @@ NOT clear them when taken, the body a panicking request left in the templates bu
 in the next response -/
 example :
     let c : Cfg := { full with gzip := false, errors := none, log := false, header := false }
-    let st0 : ServerState := { gzPool := [], tplPool := [], logLines := 0 }
-    let st1 := (serveSt false c ⟨true, false, false⟩ (.write (some 200) [9] false .plain false) st0).2
-    (serveSt false c ⟨true, false, false⟩ (.write (some 200) [1] false .plain false) st1).1 ≠
-      serve c ⟨true, false, false⟩ (.write (some 200) [1] false .plain false) ∧
-    (serveSt true c ⟨true, false, false⟩ (.write (some 200) [1] false .plain false) st1).1 =
-      serve c ⟨true, false, false⟩ (.write (some 200) [1] false .plain false) := by decide
+    let st0 : ServerState := { gzPool := [], tplPool := [], logLines := 0, nextId := 0 }
+    let st1 := (serveSt false c ⟨true, false, false⟩ 0 (.write (some 200) [9] false .plain false) st0).2
+    (serveSt false c ⟨true, false, false⟩ 0 (.write (some 200) [1] false .plain false) st1).1 ≠
+      serve c ⟨true, false, false⟩ 0 (.write (some 200) [1] false .plain false) ∧
+    (serveSt true c ⟨true, false, false⟩ 0 (.write (some 200) [1] false .plain false) st1).1 =
+      serve c ⟨true, false, false⟩ 0 (.write (some 200) [1] false .plain false) := by decide
 
 /-- non-vacuity of the hypotheses of `C12_written_response_unaltered` / `C12_templates_outcomes` -/
 example : (tplOn full ⟨false, true, false⟩ && !false) = false ∧ (tplOn full ⟨true, true, false⟩ && !true) = false ∧
